@@ -343,8 +343,15 @@ bool Xml::Private::parse(const char* data, Element& element)
     return false;
   if(token.type != Token::startTagBeginType)
     return syntaxError(token.pos, "Expected '<'"), false;
-  element.clear(); // attributes and content are appended to
-  return parseElement(element);
+  Element parsed; // attributes and content are appended to, and the text may be owned by element
+  if(!parseElement(parsed))
+    return false;
+  element.line = parsed.line;
+  element.column = parsed.column;
+  element.type = parsed.type;
+  element.attributes.swap(parsed.attributes);
+  element.content.swap(parsed.content);
+  return true;
 }
 
 bool Xml::Private::parseElement(Element& element)
